@@ -737,6 +737,40 @@ def handed_on_unchanged(body, operand, name):
     return not sl.callee_names() and not [d for d in sl.assigns if d["stmt"]["rv"]["k"] in ("binop", "unop", "aggregate")]
 
 
+def param_handed_on(body, operand, name):
+    """Plain-fn sibling of handed_on_unchanged: `operand` is the function's own parameter `name` (or a re-borrow of it),
+    with no call, arithmetic or alternative source on the way."""
+    l = param_by_name(body, name)
+    if l is None:
+        return False
+    sl = body.slice_op(operand)
+    if l not in sl.locals or sl.callee_names() or sl.const_values():
+        return False
+    if [d for d in sl.assigns if d["stmt"]["rv"]["k"] in ("binop", "unop", "aggregate")]:
+        return False
+    # a single source: every local on the way has one definition
+    for x in sl.locals:
+        if x != l and len(body.defs().get(x, [])) > 1:
+            return False
+    return True
+
+
+def handoff_results(ctx, rule, table, VIOL, PASS, site, why):
+    """Shared shape of the hand-off rules: (caller, callee regex, {arg position: caller parameter}); coroutine callers
+    (async fn) are looked up with ctx.co, plain ones with ctx.fn."""
+    for caller, is_co, callee, amap in table:
+        b = ctx.co(caller) if is_co else ctx.fn(caller)
+        c = one(b.calls(callee), "%s call in %s" % (callee.strip("$").split("::")[-1], caller))
+        for pos, nm in sorted(amap.items()):
+            ctx.count()
+            key = "%s->%s/%s" % (caller.split("::")[-1], callee.strip("$").split("::")[-1], nm)
+            ok = pos < len(c[1]["args"]) and (handed_on_unchanged(b, c[1]["args"][pos], nm) if is_co else param_handed_on(b, c[1]["args"][pos], nm))
+            if not ok:
+                yield VIOL(rule, "handoff/" + key, "argument %d of %s is not the caller's own `%s` handed on unchanged: %s" % (pos, callee.strip("$").split("::")[-1], nm, why), where=b.span_of_block(c[0]))
+            else:
+                yield PASS(rule, "handoff/" + key, "`%s` handed on unchanged" % nm, [site(b, c[0], callee.strip("$").split("::")[-1])])
+
+
 # calls that change a text / byte string's content (as opposed to re-typing, borrowing, copying, concatenating it)
 TRANSFORM = (r"(str>|\[u8\]>|\[T\]>|String|Vec::<T, A>|canonical)::(trim\w*|strip_\w+|to_(ascii_)?(lower|upper)case|make_ascii_(lower|upper)case|replace\w*|truncate|pop|remove|drain|retain\w*|dedup\w*|sort\w*|reverse|"
              r"r?split\w*|chars|char_indices|bytes|escape_\w+|encode_upper|to_uppercase|to_lowercase|repeat|swap\w*|rotate_\w+|fill\w*|insert|insert_str|splice)$"
